@@ -137,6 +137,16 @@ Fixpoint contains_sub (sub s : string) : bool :=
 Definition f25 (lines : term) (asks_weblist : bool) : list Z :=
   [].  (* F25 repaired in /repo (b775123): no class; the witness is still replayed and must not hang *)
 
+(* class 38 = F38: a -divide_by flag whose reciprocal overflows float64 AND a /flamegraph request *)
+Definition f38 (i : term) : list Z :=
+  let divs := filter (fun a => has_prefix "-divide_by=" a) (gss (gn i 1)) in
+  let tiny (a : string) : bool :=
+    match pf_of (gn i 5) (drop 11 a) with
+    | Some (TL [TZ n; TZ d]) => reciprocal_overflows n d
+    | _ => false
+    end in
+  if existsb tiny divs && existsb (fun rq => String.eqb (gs (gn rq 0)) "/flamegraph") (gl (gn i 2)) then [38] else [].
+
 Definition cls_C09 (i : term) : list Z :=
   let op := gs (gn i 0) in
   if String.eqb op "session" then
@@ -145,7 +155,7 @@ Definition cls_C09 (i : term) : list Z :=
   else if String.eqb op "locate" then
     if existsb (fun m => glob_unsafe (gs (gn m 1))) (gl (gn i 2)) then [901] else []
   else if String.eqb op "web" then
-    f25 (gn i 4) (existsb (fun rq => String.eqb (gs (gn rq 0)) "/source") (gl (gn i 2)))
+    (f25 (gn i 4) (existsb (fun rq => String.eqb (gs (gn rq 0)) "/source") (gl (gn i 2))) ++ f38 i)%list
   else if String.eqb op "cli" then
     f25 (gn i 4) (existsb (contains_sub "weblist") (gss (gn i 1) ++ gss (gn i 2))%list)
   else if String.eqb op "symmode" then
